@@ -101,7 +101,7 @@ def text_hash(text):
 
 
 FSTR_LITERALS = ["'s'", "f'{a}'", "f'{a}{b}'", "f'{a:{w}}'", "f'{a!r:>{w}}x'", "f'''{a}\n{b}'''", "f'''\n{a}\n'''", "f'''{a:\n}'''", "'''\n'''", "f'{a=}'", "rf'{a}\\n'", "u'é'",
-                 "f'é{é}'", "f'{a:{w}.{p}}'", "f'\\101\\0{a}\\x41\\N{EM DASH}{b}'", 'f"{d[\'k\']} {b}"', "f'{a:\\x3e{w}}{b}'"]
+                 "f'é{é}'", "f'{a:{w}.{p}}'", "f'\\101\\0{a}\\x41\\N{EM DASH}{b}'", 'f"{d[\'k\']} {b}"', "f'{a:\\x3e{w}}{b}'", 'f"{d[\'é€\']}{b}"', "'''\n\ufeffx''' f'{(a),(b)}'"]
 
 
 def fstring_product(n=3):
